@@ -3,15 +3,21 @@ import PyemvModel.Sha1
 /-! # pyemv/kd.py — code-shaped model (with the two `fix:` commits applied, see DESIGN.md §8) -/
 namespace Pyemv
 
-/-- kd.py 77-95 -/
-def deriveIccMkA (issMk : Bytes) (pan : StrOrBytes) (psn : Option StrOrBytes) : R Bytes := do
-  let psn := psn.getD (.str ['0', '0'])
-  let psn ← psn.text
-  let pan ← pan.text
-  let dataA ← a2bHex (zfill 16 (lastN 16 (pan ++ psn)))
+/-- `psn = "00" if psn is None`, then `.decode("ascii")` for bytes (kd.py 77-81, 151-155) -/
+def psnTextR (psn : Option StrOrBytes) : R PyStr := (psn.getD (.str ['0', '0'])).text
+
+/-- kd.py 90-95 / 192-197: data B is inverted data A; two TDES blocks; parity -/
+def keyFromData (issMk dataA : Bytes) : R Bytes := do
   let dataB := xor dataA (List.replicate dataA.length 0xFF)
   let mk ← encryptTdesEcb issMk (dataA ++ dataB)
   pure (adjustKeyParity mk)
+
+/-- kd.py 77-95 -/
+def deriveIccMkA (issMk : Bytes) (pan : StrOrBytes) (psn : Option StrOrBytes) : R Bytes := do
+  let psn ← psnTextR psn
+  let pan ← pan.text
+  let dataA ← a2bHex (zfill 16 (lastN 16 (pan ++ psn)))
+  keyFromData issMk dataA
 
 def isDec (c : Char) : Bool := '0' ≤ c && c ≤ '9'
 def isLet (c : Char) : Bool := 'a' ≤ c && c ≤ 'f'
@@ -22,23 +28,25 @@ def sha1Hex (m : Bytes) : PyStr := hexLower (Sha1.sha1 m)
 /-- `digest.translate({97: 48, …, 102: 53})` on a string of letters a–f -/
 def decimalise (s : PyStr) : PyStr := s.map fun c => Char.ofNat (c.toNat - 97 + 48)
 
-/-- kd.py 147-197 -/
-def deriveIccMkB (issMk : Bytes) (pan : StrOrBytes) (psn : Option StrOrBytes) : R Bytes := do
-  if pan.len ≤ 16 then deriveIccMkA issMk pan psn else
-  let psn := psn.getD (.str ['0', '0'])
-  let psn ← psn.text
-  let pan ← pan.text
-  let panPsn ← if pan.length % 2 = 1 then a2bHex ('0' :: pan ++ psn) else a2bHex (pan ++ psn)
-  let digest := sha1Hex panPsn
+/-- kd.py 170-188: first 16 decimal digits of the digest, topped up from its letters -/
+def selectDigits (digest : PyStr) : PyStr :=
   let result := (digest.filter isDec).take 16
-  let result :=
-    if result.length < 16 then
-      result ++ decimalise ((digest.filter isLet).take (16 - result.length))
-    else result
-  let dataA ← a2bHex result
-  let dataB := xor dataA (List.replicate dataA.length 0xFF)
-  let mk ← encryptTdesEcb issMk (dataA ++ dataB)
-  pure (adjustKeyParity mk)
+  if result.length < 16 then
+    result ++ decimalise ((digest.filter isLet).take (16 - result.length))
+  else result
+
+/-- kd.py 162-165: odd number of digits gets a leading "0" -/
+def bcdPanPsn (pan psn : PyStr) : R Bytes :=
+  if pan.length % 2 = 1 then a2bHex ('0' :: pan ++ psn) else a2bHex (pan ++ psn)
+
+/-- kd.py 147-197 -/
+def deriveIccMkB (issMk : Bytes) (pan : StrOrBytes) (psn : Option StrOrBytes) : R Bytes :=
+  if pan.len ≤ 16 then deriveIccMkA issMk pan psn else do
+  let psn ← psnTextR psn
+  let pan ← pan.text
+  let panPsn ← bcdPanPsn pan psn
+  let dataA ← a2bHex (selectDigits (sha1Hex panPsn))
+  keyFromData issMk dataA
 
 /-- kd.py 244-260 -/
 def deriveCommonSk (mk r : Bytes) : R Bytes := do
